@@ -699,6 +699,17 @@ Definition graphql_schema_step (old : option target_content) (x : step) : option
 Definition run_history (old : option target_content) (h : list step) : option target_content :=
   fold_left graphql_schema_step h old.
 
+(* one PROCESS running several strategies: main.client() runs (which add the codegen-only @mixin directive to
+   THEIR schema object, write THEIR package) may come between graphql_schema() runs.  They are no part of the
+   inputs of a later graphql_schema(): it loads its schema from its own schema_path again. *)
+Inductive event := EvSchema (x : step) | EvClient.
+Definition event_step (old : option target_content) (e : event) : option target_content :=
+  match e with EvSchema x => graphql_schema_step old x | EvClient => old end.
+Definition run_process (old : option target_content) (h : list event) : option target_content :=
+  fold_left event_step h old.
+Definition schema_steps (h : list event) : list step :=
+  flat_map (fun e => match e with EvSchema x => [x] | EvClient => [] end) h.
+
 (* ---------- sexp interface ---------- *)
 Definition sC (c : chars) : sexp := A (l2s c).
 Definition dC (e : sexp) : option chars := match e with A s => Some (s2l s) | _ => None end.
